@@ -210,7 +210,9 @@ func (cli *Client) handshake(c diam.Conn) (diam.Conn, error) {
 	cli.Handler.mux.HandleIdx(baseCERIdx, diam.HandlerFunc(cerClientHandler))
 	cli.Handler.mux.HandleFunc("CER", cerClientHandler)
 	// Handle CEA and DWA.
-	errc := make(chan error)
+	// Buffered, so that a CEA handled after the handshake has given up
+	// does not block the connection's reader forever.
+	errc := make(chan error, 1)
 	cli.Handler.mux.Handle("CEA", handleCEA(cli.Handler, errc))
 
 	var dwac chan struct{}
